@@ -10,7 +10,9 @@
 4. clock readings of several threads (+ readings ordered by a lock) and sleeps of
    0/1ns/1us/1ms/20ms, with and without signals interrupting the sleep, validated by TLC against
    ClockTrace.tla (Clock.tla model-checked on small bounds).
-5. thorough: Apalache checks the equivalence symbolically with the real constants.
+5. Apalache checks transcription = definition, panic-freedom and the laws symbolically for ALL
+   64-bit inputs with the real constants (TimeArithApaReal.tla); TLC ties that flattened module to
+   TimeArithCode.tla on the scaled domain (TimeArithTie.tla).
 """
 import json
 import os
@@ -209,39 +211,41 @@ def run_clock(chk, bindir, tier):
     return len({(e["ds"], e["dns"], e["signals"] > 0) for e in sleeps if (e["ds"], e["dns"]) != (0, 0)})
 
 
-def run_apalache(chk):
-    """thorough: the equivalence with the REAL constants on unbounded integers, symbolically."""
+def run_apalache(chk, tier):
+    """the equivalence with the REAL constants on unbounded integers, symbolically (measured: 8-15 s)."""
     exe = shutil.which("apalache-mc")
     if not exe:
-        chk.extra["apalache"] = "not installed"
-        return
+        return "not installed"
     out = os.path.join(chk.work, "apalache-out")
+    shutil.rmtree(out, ignore_errors=True)
     t0 = time.time()
+    limit = 240 if tier == "quick" else 900
     try:
-        p = subprocess.run([exe, "check", "--length=0", "--inv=AllInv", "--init=Init", "--next=Next",
-                            "--out-dir=" + out, os.path.join(core.SPECS, "TimeArithApa.tla")],
-                           stdout=subprocess.PIPE, stderr=subprocess.STDOUT, text=True, timeout=900, cwd=core.SPECS)
+        p = subprocess.run([exe, "check", "--cinit=ConstInit", "--length=0", "--inv=AllInv",
+                            "--out-dir=" + out, os.path.join(core.SPECS, "TimeArithApaReal.tla")],
+                           stdout=subprocess.PIPE, stderr=subprocess.STDOUT, text=True, timeout=limit, cwd=core.SPECS)
     except subprocess.TimeoutExpired:
-        chk.extra["apalache"] = "stalled: no answer within 900 s (skipped, not counted)"
-        return
-    ok = "The outcome is: NoError" in p.stdout
-    chk.extra["apalache"] = {"outcome": "NoError" if ok else "see log", "wall_s": round(time.time() - t0, 1),
-                             "constants": "NPS=10^9, SMAX=2^63-1, DMAX=2^64-1, unbounded integers"}
-    if not ok:
-        raise core.ToolError("Apalache did not confirm TimeArithApa: " + p.stdout[-2000:])
+        return "stalled: no answer within %d s (skipped, not counted)" % limit
+    if "The outcome is: NoError" not in p.stdout:
+        raise core.ToolError("Apalache did not confirm TimeArithApaReal (model-level result, not a verdict on the code): " + p.stdout[-2000:])
+    return {"outcome": "NoError", "wall_s": round(time.time() - t0, 1), "invariant": "AllInv = Exact /\\ NoPanic /\\ Laws",
+            "constants": "NPS=10^9, SMAX=2^63-1, DMAX=2^64-1, U32MAX=2^32-1; all inputs, unbounded integers"}
 
 
 def run(tier):
     chk = core.Check("C19", tier, "model_checking")
     bindir = core.cargo_build(bins=["timearith"])
     # 1 + 2 + Clock: model checking
-    with ThreadPoolExecutor(max_workers=3) as ex:
+    with ThreadPoolExecutor(max_workers=5) as ex:
         f1 = ex.submit(tlc_model, chk, "TimeArithCode.tla", "TimeArithCode.cfg", "TimeArithCode", 3)
         f2 = ex.submit(tlc_model, chk, "BigNat_MC.tla", None, "BigNat_MC", 3,
                        "CONSTANTS\n  XMAX = %d\nINIT Init\nNEXT Next\nINVARIANT Check\nCHECK_DEADLOCK FALSE\n" % (1200 if tier == "quick" else 100000))
         f3 = ex.submit(tlc_model, chk, "Clock.tla", "Clock_MC.cfg", "Clock_MC", 2)
-        r1, r2, r3 = f1.result(), f2.result(), f3.result()
-    for r in (r1, r2, r3):
+        f4 = ex.submit(tlc_model, chk, "TimeArithTie.tla", "TimeArithTie.cfg", "TimeArithTie", 2)
+        f5 = ex.submit(run_apalache, chk, tier)
+        r1, r2, r3, r4 = f1.result(), f2.result(), f3.result(), f4.result()
+        chk.extra["apalache"] = f5.result()
+    for r in (r1, r2, r3, r4):
         chk.add_tlc(r)
     chk.extra["scaled_exhaustive_inputs"] = r1.distinct
     chk.extra["bignat_selfcheck_pairs"] = r2.distinct
@@ -250,9 +254,6 @@ def run(tier):
     nt = run_arith(chk, bindir, tier)
     # 4
     nt += run_clock(chk, bindir, tier)
-    # 5
-    if tier == "thorough":
-        run_apalache(chk)
     chk.nontrivial = nt
     chk.exhaustive = False
     chk.rule = ("TLC enumerates ALL (t,u) and (t,d) over the scaled constants and compares transcription and definition; "
